@@ -141,9 +141,13 @@ func (sdbh *SemaDBHandlers) HandleListCollections(w http.ResponseWriter, r *http
 		log.Error().Err(err).Msg("ListCollections failed")
 		return
 	}
-	colItems := make([]ListCollectionItem, len(collections))
-	for i, col := range collections {
-		colItems[i] = ListCollectionItem{Id: col.Id, VectorSize: col.IndexSchema["vector"].VectorVamana.VectorSize, DistanceMetric: col.IndexSchema["vector"].VectorVamana.DistanceMetric}
+	colItems := make([]ListCollectionItem, 0, len(collections))
+	for _, col := range collections {
+		if !isV1Collection(col) {
+			// Created through a later API version, not representable here
+			continue
+		}
+		colItems = append(colItems, ListCollectionItem{Id: col.Id, VectorSize: col.IndexSchema["vector"].VectorVamana.VectorSize, DistanceMetric: col.IndexSchema["vector"].VectorVamana.DistanceMetric})
 	}
 	resp := ListCollectionsResponse{Collections: colItems}
 	utils.Encode(w, http.StatusOK, resp)
@@ -155,6 +159,13 @@ func (sdbh *SemaDBHandlers) HandleListCollections(w http.ResponseWriter, r *http
 type contextKey string
 
 const collectionContextKey contextKey = "collection"
+
+// The v1 API assumes a single vamana index on the "vector" property.
+// Collections created through later API versions may not have it.
+func isV1Collection(col models.Collection) bool {
+	iv, ok := col.IndexSchema["vector"]
+	return ok && iv.Type == models.IndexTypeVectorVamana && iv.VectorVamana != nil
+}
 
 // Extracts collectionId from the URI and fetches the collection from the cluster.
 func (sdbh *SemaDBHandlers) CollectionURIMiddleware(next http.Handler) http.Handler {
@@ -173,6 +184,11 @@ func (sdbh *SemaDBHandlers) CollectionURIMiddleware(next http.Handler) http.Hand
 		}
 		if err != nil {
 			utils.Encode(w, http.StatusInternalServerError, map[string]string{"error": err.Error()})
+			return
+		}
+		if !isV1Collection(collection) {
+			errMsg := fmt.Sprintf("collection %s is not compatible with the v1 API", collectionId)
+			utils.Encode(w, http.StatusBadRequest, map[string]string{"error": errMsg})
 			return
 		}
 		// ---------------------------
